@@ -144,6 +144,15 @@ def run(rep, tier, seed, proof_ok, rng):
             outside = [m for m in TREE if not tracked(m, set(accept))]
             data_mod = rng.choice(outside) if outside else TREE[-1]
             cfgs.append({"accept": accept, "forms": forms, "data_mod": data_mod, "accepted_subtree": acc_mod})
+    # two nested prefixes accepted one after the other, in both orders (accept_module is called in the order of the list)
+    for child, parent in (("apk.sub.deep", "apk.sub"), ("apk.sub.mod", "apk"), ("apk.sub.deep.x", "apk.sub.deep")):
+        for order in ((child, parent), (parent, child)):
+            forms = [FORMS[(k + j) % len(FORMS)] for j in range(len(TREE))]
+            k += 1
+            accept = ["vpipe", fillers[0]] + list(order) + [fillers[1]]
+            outside = [m for m in TREE if not tracked(m, set(accept))]
+            cfgs.append({"accept": accept, "forms": forms, "data_mod": rng.choice(outside) if outside else TREE[-1], "accepted_subtree": parent,
+                         "order": "child-then-parent" if order[0] == child else "parent-then-child"})
     with cf.ThreadPoolExecutor(max_workers=C.NPROC) as ex:
         res = list(ex.map(run_cfg, cfgs))
     n_edit = 0
